@@ -237,10 +237,10 @@ def register(reg):
     @reg.contract
     class WriteOutgoing(Contract):
         key = H2 + "._write_outgoing_data"
-        props = ("C03", "C16", "C15", "C12", "C13")
+        props = ("C03", "C16", "C15", "C12", "C13", "C14")
         modifies = ("NS.written", "X.queue_ver", "H2._write_exception", "H2._connection_error")
         raises = NET_WRITE_RAISES + ["Cancelled", "OtherException"]
-        raises_props = ("C15",)
+        raises_props = ("C15", "C14")  # ConnectionNotAvailable from a write would be re-sent by the pool
         call_raises = NET_WRITE_RAISES + ["Cancelled"]
 
         def callsite(self, c, ev):
@@ -397,7 +397,7 @@ def register(reg):
         modifies = ("NS.pending", "NS.written", "X.ver", "X.closed", "X.queue_ver", "H2._events", "H2._connection_terminated", "H2._read_exception", "H2._write_exception",
                     "H2._connection_error", "H2._max_streams", "H2._request_count", "Sem.permits", "SemG.mine")
         raises = IO_RAISES + [RPE, CNA, H2_PROTOCOL_ERROR, "Cancelled", "OtherException"]
-        raises_props = ("C15",)
+        raises_props = ("C15", "C12")  # an internal error here reaches whichever caller is reading
         call_raises = IO_RAISES + [RPE, CNA, H2_PROTOCOL_ERROR, "Cancelled"]
         max_paths = 30000
 
